@@ -405,6 +405,8 @@ func runC04Gaps2(c *eng.Ctx) {
 		}
 	}
 
+	runC04Gaps3(c, rootNS)
+
 	// ---- C04.15 sys/leases/revoke answers without an error only across a successful (lazy) revocation
 	if f := c.Fn("vault.(*SystemBackend).handleRevoke"); f != nil {
 		var sinks []ssa.Instruction
@@ -424,5 +426,280 @@ func runC04Gaps2(c *eng.Ctx) {
 				eng.GCallOK(f, `vault\.\(\*ExpirationManager\)\.Revoke$`),
 				eng.GCallOK(f, `vault\.\(\*ExpirationManager\)\.LazyRevoke$`)), nil)
 		}
+	}
+}
+
+// g2NotRootEdges: the edges of f on which "<ns>.ID != RootNamespaceID" holds, for
+// namespaces <ns> whose origins all match wantNS (rendered by g2NsOrigins).
+func g2NotRootEdges(f *ssa.Function, rootNS, wantNS string) []eng.Edge {
+	re := regexp.MustCompile(`\.ID == "` + regexp.QuoteMeta(rootNS) + `"$`)
+	want := regexp.MustCompile(wantNS)
+	var out []eng.Edge
+	for _, b := range f.Blocks {
+		ifi := eng.IfOf(b)
+		if ifi == nil {
+			continue
+		}
+		nc := eng.Normalize(ifi.Cond)
+		bo, ok := nc.Val.(*ssa.BinOp)
+		if !ok || !nc.Matches(re) {
+			continue
+		}
+		good := false
+		for _, op := range []ssa.Value{bo.X, bo.Y} {
+			ld, ok := op.(*ssa.UnOp)
+			if !ok {
+				continue
+			}
+			fa, ok := ld.X.(*ssa.FieldAddr)
+			if !ok {
+				continue
+			}
+			ds := g2NsOrigins(fa.X)
+			good = len(ds) > 0
+			for _, d := range ds {
+				if !want.MatchString(d) {
+					good = false
+				}
+			}
+		}
+		if !good {
+			continue
+		}
+		if nc.Pol == false {
+			out = append(out, eng.Edge{From: b, Succ: 0})
+		} else {
+			out = append(out, eng.Edge{From: b, Succ: 1})
+		}
+	}
+	return out
+}
+
+// g2Nested: fn and every function literal nested in it.
+func g2Nested(fn *ssa.Function) []*ssa.Function {
+	out := []*ssa.Function{fn}
+	for _, a := range fn.AnonFuncs {
+		out = append(out, g2Nested(a)...)
+	}
+	return out
+}
+
+// g2KeySprintfs: the fmt.Sprintf calls whose result flows into v.
+func g2KeySprintfs(v ssa.Value) []ssa.Instruction {
+	var out []ssa.Instruction
+	for _, o := range eng.Origins(v) {
+		if o.Kind == "call" && o.Desc == "fmt.Sprintf" {
+			if call, ok := o.Val.(*ssa.Call); ok {
+				out = append(out, call)
+			}
+		}
+	}
+	return out
+}
+
+// runC04Gaps3: clauses added after the gap round — the two repaired defects
+// (C04.16 lease namespace in RevokeByToken, C04.17 child namespace in token tidy)
+// and the writer/reader agreement on the parent-index key (C04.18, seed C04-c).
+func runC04Gaps3(c *eng.Ctx, rootNS string) {
+	// ---- C04.16 RevokeByToken expires every lease in the namespace the lease id names
+	if f := c.Fn("vault.(*ExpirationManager).RevokeByToken"); f != nil {
+		lzs := eng.Calls(f, `vault\.\(\*ExpirationManager\)\.lazyRevokeInternal$`)
+		for _, lz := range lzs {
+			c.Clause("R5", "C04.16")
+			a := lz.Common().Args
+			site := "context of lazyRevokeInternal = the lease's own namespace"
+			ok, why := true, ""
+			os := eng.Origins(a[1])
+			if len(os) == 0 {
+				ok, why = false, "no origin"
+			}
+			for _, o := range os {
+				call, isCall := o.Val.(*ssa.Call)
+				if o.Kind != "call" || !strings.HasSuffix(o.Desc, "namespace.ContextWithNamespace") || !isCall || len(call.Call.Args) != 2 {
+					ok, why = false, o.Kind+":"+o.Desc
+					continue
+				}
+				// the namespace is resolved from the very lease id handed on
+				for _, n := range eng.Origins(call.Call.Args[1]) {
+					ex, isEx := n.Val.(*ssa.Extract)
+					var res *ssa.Call
+					if isEx {
+						res, _ = ex.Tuple.(*ssa.Call)
+					}
+					switch {
+					case res != nil && n.Kind == "call" && strings.HasSuffix(n.Desc, "vault.(*ExpirationManager).getNamespaceFromLeaseID#0"):
+						ra := res.Call.Args
+						if ra[len(ra)-1] != a[2] {
+							ok, why = false, "namespace of another id: "+eng.Expr(ra[len(ra)-1])
+						}
+					case res != nil && n.Kind == "call" && strings.HasSuffix(n.Desc, "vault.(*Core).NamespaceByID#0"):
+						ra := res.Call.Args
+						if m, _, _ := eng.OriginsMatch(ra[len(ra)-1], `^call:namespace\.SplitIDFromString#1$`); !m {
+							ok, why = false, "NamespaceByID("+eng.Expr(ra[len(ra)-1])+")"
+						}
+					case n.Kind == "global" && n.Desc == "namespace.RootNamespace":
+					default:
+						ok, why = false, "namespace from "+n.Kind+":"+n.Desc
+					}
+				}
+			}
+			if ok {
+				c.OK(f, site, lz.Pos(), eng.ExprDeep(a[1]))
+			} else {
+				c.Violation(f, site, lz.Pos(), "RevokeByToken hands "+eng.Expr(a[1])+" ("+why+") to lazyRevokeInternal: loadEntry reads leaseView(namespace of the context), so a lease issued in a child namespace under a parent-namespace token is not found, nil is returned and the lease outlives the token", nil)
+			}
+		}
+	}
+
+	// ---- C04.17 token tidy removes a parent-index entry only after a successful lookup of the child
+	// in the namespace the key names (and of the parent)
+	nsOfKey := `^ctxNS\{ByID\(namespace\.SplitIDFromString\(\)#1\)\}$`
+	if top := c.Fn("vault.(*TokenStore).handleTidy"); top != nil {
+		n := 0
+		for _, f := range g2Nested(top) {
+			var dels []ssa.Instruction
+			for _, d := range eng.Calls(f, `^<barrier\.View>\.Delete$`) {
+				if g2ViewArg(d, `vault\.\(\*TokenStore\)\.parentView$`) != nil {
+					dels = append(dels, d)
+				}
+			}
+			if len(dels) == 0 {
+				continue
+			}
+			n += len(dels)
+			var childLk, parentLk []ssa.CallInstruction
+			for _, l := range eng.Calls(f, `vault\.\(\*TokenStore\)\.lookupInternal$`) {
+				a := l.Common().Args
+				if eng.Expr(a[3]) != "true" {
+					continue // by plain id (accessor pass)
+				}
+				if ok, _, _ := eng.OriginsMatch(a[2], `^call:strings\.TrimSuffix$`); ok {
+					parentLk = append(parentLk, l)
+				} else {
+					childLk = append(childLk, l)
+				}
+			}
+			if !c.Floor(f, "lookups of the listed children", len(childLk), 1) || !c.Floor(f, "lookup of the parent", len(parentLk), 1) {
+				continue
+			}
+			for _, l := range childLk {
+				a := l.Common().Args
+				c.Clause("R5", "C04.17")
+				c.Prov(f, "child id looked up by tidy", l, a[2], `^call:namespace\.SplitIDFromString#0$`)
+				ds := g2CtxOrigins(a[1])
+				has := false
+				for _, d := range ds {
+					if regexp.MustCompile(nsOfKey).MatchString(d) {
+						has = true
+					}
+				}
+				if !has {
+					c.Violation(f, "context of the child lookup = namespace named by the index key", l.Pos(), "tidy looks a listed child up in "+strings.Join(ds, " | ")+" only: the index key of a child outside the root namespace is <salted>.<nsID> while the entry is stored under <salted> in that namespace, so every such child is 'not found' and its parent-index entry is deleted although the token is alive", nil)
+				} else {
+					g2All(c, f, "context of the child lookup = namespace named by the index key", l, ds, "lookupInternal(ctx, child)", nsOfKey, `^ctxNS\{freevar:ns\}$`)
+				}
+			}
+			c.Clause("R2", "C04.17")
+			cg := eng.Guard{Desc: "success edge of the child lookup"}
+			for _, l := range childLk {
+				cg.Edges = append(cg.Edges, eng.CallOKEdges(l)...)
+			}
+			pg := eng.Guard{Desc: "success edge of the parent lookup"}
+			for _, l := range parentLk {
+				pg.Edges = append(pg.Edges, eng.CallOKEdges(l)...)
+			}
+			c.Cut(f, "tidy: delete of a parent-index entry", dels, cg, nil)
+			c.Cut(f, "tidy: delete of a parent-index entry", dels, pg, nil)
+		}
+		c.Floor(top, "parent-index deletes in token tidy", n, 1)
+	}
+
+	// ---- C04.18 writer/reader agreement on the parent-index key "<parent>/<child>[.<nsID>]"
+	// writers (storeCommon; revokeInternal recomputes the key to delete it): the suffix is appended
+	// exactly when the token's own namespace is not the root namespace
+	for _, w := range []struct{ fn, tokNS, op string }{
+		{"vault.(*TokenStore).storeCommon", `^ByID\(entry\.NamespaceID\)$`, "Put"},
+		{"vault.(*TokenStore).revokeInternal", `^ByID\(vault\.\(\*TokenStore\)\.lookupInternal\(\)#0\.NamespaceID\)$`, "Delete"},
+	} {
+		f := c.Fn(w.fn)
+		if f == nil {
+			continue
+		}
+		notRoot := g2NotRootEdges(f, rootNS, w.tokNS)
+		var sps, ops []ssa.Instruction
+		for _, op := range eng.Calls(f, `^<barrier\.View>\.`+w.op+`$`) {
+			if g2ViewArg(op, `vault\.\(\*TokenStore\)\.parentView$`) == nil {
+				continue
+			}
+			var key ssa.Value
+			if w.op == "Put" {
+				a := op.Common().Args
+				for _, kv := range eng.StructLitField(a[len(a)-1], "Key") {
+					key = kv
+				}
+			} else {
+				a := op.Common().Args
+				key = a[len(a)-1]
+			}
+			if key == nil {
+				continue
+			}
+			if s := g2KeySprintfs(key); len(s) > 0 {
+				sps = append(sps, s...)
+				ops = append(ops, op)
+			}
+		}
+		c.Clause("R2", "C04.18")
+		if !c.Floor(f, "parent-index "+w.op+" with a suffixed key", len(ops), 1) {
+			continue
+		}
+		site := "suffix of the parent-index key appended exactly when the token's namespace is not root"
+		if len(notRoot) == 0 {
+			c.Violation(f, site, sps[0].Pos(), "no branch tests <token namespace>.ID != RootNamespaceID: the readers of the parent index (tree walk, orphaning loop, tidy) take a key without suffix to name a root-namespace token, so the writer must suffix every other token", nil)
+			continue
+		}
+		c.Cut(f, "namespace suffix of the parent-index key", sps, eng.Guard{Desc: "[token namespace != root]", Edges: notRoot}, nil)
+		if h := eng.Reach(eng.Query{Fn: f, StartEdges: notRoot, Barriers: sps, Target: eng.IsTarget(ops)}); h != nil {
+			c.Violation(f, site, h.Instr.Pos(), "a token outside the root namespace can be indexed under a key without its namespace suffix", h.Witness)
+		} else {
+			c.OK(f, site, sps[0].Pos(), "every path from the not-root edge to the index "+w.op+" passes the suffixing")
+		}
+	}
+	// readers: whoever splits an index key looks the id part up in the namespace named by the suffix;
+	// without suffix the reader's own (tabled) context applies, which the writer rule makes the root namespace
+	// (token tidy, the third reader, is held to the same condition by C04.17)
+	for _, r := range []struct{ fn, def string }{
+		{"vault.(*TokenStore).revokeTreeInternal", `^param:ctx$`},
+		{"vault.(*TokenStore).revokeInternal", `^ctxNS\{ByID\(vault\.\(\*TokenStore\)\.lookupInternal\(\)#0\.NamespaceID\)\}$`},
+	} {
+		top := c.Fn(r.fn)
+		if top == nil {
+			continue
+		}
+		n := 0
+		for _, f := range g2Nested(top) {
+			for _, l := range eng.Calls(f, `vault\.\(\*TokenStore\)\.(lookupInternal|revokeInternal)$`) {
+				a := l.Common().Args
+				if ok, _, _ := eng.OriginsMatch(a[2], `^call:namespace\.SplitIDFromString#0$`); !ok {
+					continue
+				}
+				n++
+				c.Clause("R5", "C04.18")
+				ds := g2CtxOrigins(a[1])
+				has := false
+				for _, d := range ds {
+					if regexp.MustCompile(nsOfKey).MatchString(d) {
+						has = true
+					}
+				}
+				site := "reader of the parent index: id part looked up in the namespace the suffix names"
+				if !has {
+					c.Violation(f, site, l.Pos(), eng.CalleeName(l.Common())+" receives "+strings.Join(ds, " | ")+": the namespace suffix split off the index key is not used", nil)
+				} else {
+					g2All(c, f, site, l, ds, "context", nsOfKey, r.def)
+				}
+			}
+		}
+		c.Floor(top, "lookups keyed by a split index key", n, 1)
 	}
 }
